@@ -426,7 +426,27 @@ def save_replay(ctx, harness_short, rep, message):
     return path
 
 
-def run_kani_set(ctx, filters, bound, harness_timeout=300, features=None, jobs=None, expect_min=1, expected_fail=None, exact=False):
+def declared_harnesses(prefixes, features=None):
+    """Names of the harnesses declared in /verif/kani/** whose name starts with one of the prefixes
+    (plain `fn name()` after #[kani::proof...] and first identifiers of harness-generating macro calls)."""
+    names = set()
+    kdir = os.path.join(VERIF, 'kani')
+    for root, _, files in os.walk(kdir):
+        for f in files:
+            if not f.endswith('.rs'):
+                continue
+            txt = open(os.path.join(root, f)).read()
+            m = re.match(r'//\s*requires-feature:\s*(\w+)', txt)
+            if m and (features is None or m.group(1) not in features):
+                continue
+            for m in re.finditer(r'^\s*(?:pub )?fn (\w+)\s*\(\s*\)|^\w+!\(\s*(\w+)\s*,', txt, re.M):
+                n = m.group(1) or m.group(2)
+                if any(n.startswith(p) for p in prefixes):
+                    names.add(n)
+    return names
+
+
+def run_kani_set(ctx, filters, bound, harness_timeout=300, features=None, jobs=None, expect_min=None, expected_fail=None, exact=False):
     """Run a set of Kani harnesses; every harness is one obligation. Failed checks are replayed natively and
     classified (violation / known finding / inconclusive).
     expected_fail: {harness short name: [regex of check messages that MUST fail]} -- used for 'documented panic'
@@ -439,7 +459,12 @@ def run_kani_set(ctx, filters, bound, harness_timeout=300, features=None, jobs=N
     if r['build_failed'] or (not r['results']):
         ctx.inconclusive.append('kani build/run failed for %s: %s' % (filters, r['out'][-1500:]))
         return r
-    if len(r['results']) < expect_min:
+    if expect_min is None and not exact:
+        decl = declared_harnesses(filters, features)
+        ran = set(n.split('::')[-1] for n in r['results'])
+        if decl - ran:
+            ctx.inconclusive.append('declared harnesses not run by kani: %s' % sorted(decl - ran))
+    elif expect_min is not None and len(r['results']) < expect_min:
         ctx.inconclusive.append('expected >= %d harnesses for %s, kani ran %d' % (expect_min, filters, len(r['results'])))
     pending = []
     for name, h in sorted(r['results'].items()):
